@@ -4,6 +4,7 @@ from common import sx, ok, cname
 from units import U
 
 ID = 'C05'
+ZERO_LABELS = True      # a share of the cases is asked with candidates numbered from 0 (harness/common.py LABEL_MODE)
 LEVEL = 'proof'
 GEN_TIES = {'Pairwin': 'Props/GenTie_Pairwin.v'}
 TIE = {'condorcet.Copeland/Schulze/MinimaxCondorcet/RankedPairs/KemenyYoung': 'correspondence',
